@@ -15,6 +15,8 @@ import time
 sys.path.insert(0, os.path.dirname(os.path.abspath(__file__)))
 import core  # noqa: E402
 from core import ROOT, BUILD, COQ  # noqa: E402
+# evidence/ and replays/ live in /verif, except when tools/run_seeded.py points a run at a patched copy
+OUT = os.environ.get('VERIF_OUT', ROOT)
 from events import pretty, kind_name  # noqa: E402
 from rng import Rng  # noqa: E402
 
@@ -36,7 +38,7 @@ def corpus_cases(pid, compname):
 
 
 def replay_path(pid, seed, n):
-    d = os.path.join(ROOT, 'replays')
+    d = os.path.join(OUT, 'replays')
     os.makedirs(d, exist_ok=True)
     return os.path.join(d, '%s-%d-%d.case' % (pid, seed, n))
 
@@ -326,8 +328,8 @@ def main():
         'wall_s': round(wall, 2),
         'violations': len(violations),
     }
-    os.makedirs(os.path.join(ROOT, 'evidence'), exist_ok=True)
-    with open(os.path.join(ROOT, 'evidence', pid + '.json'), 'w') as f:
+    os.makedirs(os.path.join(OUT, 'evidence'), exist_ok=True)
+    with open(os.path.join(OUT, 'evidence', pid + '.json'), 'w') as f:
         json.dump(evidence, f, indent=1, default=str)
     for p in problems:
         print('BROKEN: ' + p)
